@@ -22,19 +22,19 @@ type state struct {
 }
 
 type input struct {
-	Scratch string     `json:"scratch"`
-	States  []state    `json:"states"`
+	Scratch string      `json:"scratch"`
+	States  []state     `json:"states"`
 	Probes  [][2]string `json:"probes"` // base64(user), base64(pw)
-	Default uint       `json:"default"`
+	Default uint        `json:"default"`
 }
 
 type obs struct {
-	Check    string              `json:"check"`
-	List     []string            `json:"list"`
-	ListFull map[string]bool     `json:"listfull"`
-	Auth     map[string][2]bool  `json:"auth"`
-	Exists   map[string][2]bool  `json:"exists"`
-	Panic    string              `json:"panic,omitempty"`
+	Check    string             `json:"check"`
+	List     []string           `json:"list"`
+	ListFull map[string]bool    `json:"listfull"`
+	Auth     map[string][2]bool `json:"auth"`
+	Exists   map[string][2]bool `json:"exists"`
+	Panic    string             `json:"panic,omitempty"`
 }
 
 func main() {
